@@ -131,16 +131,17 @@ def guard (acc : AccessBitmap) (p : Nat) (m : DenyMsg) (k : Result) (done : List
 
 /-! ### account creation (C06) -/
 
-/-- `for i := 0; i < bound; i++ { if newAccess.IsSet(i) { if !cc.Authorize(i) { return error } } }`;
-    `true` = the loop ran to completion.  The Go loop has `bound = 64`. -/
-def subsetLoopFrom (creator newAccess : AccessBitmap) (bound : Nat) (i : Nat) : Bool :=
-  if i < bound then
+/-- `for i := 0; i < 64; i++ { if newAccess.IsSet(i) { if !cc.Authorize(i) { return error } } }`:
+    `subsetLoopFrom creator newAccess k i` runs the `k` iterations `i, i+1, …, i+k-1`;
+    `true` = the loop ran to completion without returning the error. -/
+def subsetLoopFrom (creator newAccess : AccessBitmap) : Nat → Nat → Bool
+  | 0, _ => true
+  | k + 1, i =>
     if newAccess.isSet i then
-      if creator.isSet i then subsetLoopFrom creator newAccess bound (i + 1) else false
-    else subsetLoopFrom creator newAccess bound (i + 1)
-  else true
-termination_by bound - i
+      if creator.isSet i then subsetLoopFrom creator newAccess k (i + 1) else false
+    else subsetLoopFrom creator newAccess k (i + 1)
 
+/-- the Go loop: 64 iterations from `i = 0` -/
 def subsetLoop (creator newAccess : AccessBitmap) : Bool := subsetLoopFrom creator newAccess 64 0
 
 inductive CreateOutcome
@@ -170,42 +171,47 @@ def updateUserCreate (creator : AccessBitmap) (accessField : Bytes) (createFails
     else if createFails then .failed
     else .created newAccess
 
-theorem subsetLoopFrom_iff (c n : AccessBitmap) (bound i : Nat) :
-    subsetLoopFrom c n bound i = true ↔ ∀ j, i ≤ j → j < bound → n.isSet j = true → c.isSet j = true := by
-  fun_induction subsetLoopFrom c n bound i with
-  | case1 i hi hn hc ih =>
-    rw [ih]
-    constructor
-    · intro h j hij hjb hnj
-      by_cases e : j = i
-      · subst e; exact hc
-      · exact h j (by omega) hjb hnj
-    · intro h j hij hjb hnj
-      exact h j (by omega) hjb hnj
-  | case2 i hi hn hc =>
-    constructor
-    · intro h; cases h
-    · intro h; exact absurd (h i (Nat.le_refl _) hi hn) hc
-  | case3 i hi hn ih =>
-    rw [ih]
-    constructor
-    · intro h j hij hjb hnj
-      by_cases e : j = i
-      · subst e; exact absurd hnj hn
-      · exact h j (by omega) hjb hnj
-    · intro h j hij hjb hnj
-      exact h j (by omega) hjb hnj
-  | case4 i hi =>
-    constructor
-    · intro _ j hij hjb; omega
-    · intro _; rfl
+theorem subsetLoopFrom_iff (c n : AccessBitmap) (k i : Nat) :
+    subsetLoopFrom c n k i = true ↔ ∀ j, i ≤ j → j < i + k → n.isSet j = true → c.isSet j = true := by
+  induction k generalizing i with
+  | zero =>
+    simp only [subsetLoopFrom, true_iff]
+    intro j h1 h2; omega
+  | succ k ih =>
+    simp only [subsetLoopFrom]
+    by_cases hn : n.isSet i = true
+    · by_cases hc : c.isSet i = true
+      · simp only [hn, hc, if_true]
+        rw [ih]
+        constructor
+        · intro h j hij hjb hnj
+          by_cases e : j = i
+          · subst e; exact hc
+          · exact h j (by omega) (by omega) hnj
+        · intro h j hij hjb hnj
+          exact h j (by omega) (by omega) hnj
+      · simp only [hn, hc, if_true]
+        simp only [Bool.false_eq_true, if_false]
+        constructor
+        · intro h; cases h
+        · intro h; exact absurd (h i (Nat.le_refl _) (by omega) hn) hc
+    · have hn' : n.isSet i = false := by simpa using hn
+      simp only [hn', Bool.false_eq_true, if_false]
+      rw [ih]
+      constructor
+      · intro h j hij hjb hnj
+        by_cases e : j = i
+        · subst e; exact absurd hnj hn
+        · exact h j (by omega) (by omega) hnj
+      · intro h j hij hjb hnj
+        exact h j (by omega) (by omega) hnj
 
 theorem subsetLoop_iff (c n : AccessBitmap) : subsetLoop c n = true ↔ AccessBitmap.Subset n c := by
   unfold subsetLoop AccessBitmap.Subset
   rw [subsetLoopFrom_iff]
   constructor
-  · intro h i hi; exact h i (Nat.zero_le _) hi
-  · intro h j _ hj; exact h j hj
+  · intro h i hi; exact h i (Nat.zero_le _) (by omega)
+  · intro h j _ hj; exact h j (by omega)
 
 /-! ### disconnect (C06) -/
 
